@@ -360,8 +360,18 @@ void vf_harness()
                 canaries=[{"fn": "CalcKriging::_run", "rx": r"if \(_iechSingleTarget >= 0\) _storeResultsForExport\(ksys\);", "rp": ";", "expect": r"assertion"}])
 
 
+def unit_seeding_shared():
+    """seeding at the entry of every random procedure: a requested seed always (re)seeds the generator in use, whatever was requested before (unit shared with C13)"""
+    import copy
+    from specs import C13
+    u = copy.copy(C13.unit_seed())
+    u.name = "C10.law_set_random_seed"
+    u.claim = "[a seeded procedure does not continue the stream left by earlier calls: its results depend on its seed argument only] " + u.claim
+    return u
+
+
 def units(tier):
-    return [unit_optim_pairing(), unit_krigcalc(), unit_estimate_status(), unit_single_target()]
+    return [unit_optim_pairing(), unit_krigcalc(), unit_estimate_status(), unit_single_target(), unit_seeding_shared()]
 
 
 META = {
